@@ -27,6 +27,8 @@ CLAIMED["C14"] = ("4/C14", "The real Persistence.load runs on documents in which
 CLAIMED["C15"] = ("4/C15", "The real Persistence.save runs on an in-memory file system with crash semantics; the crash index over the operations save actually issues and the surviving prefix length of unflushed data are symbolic; the real Persistence.load then runs on every post-crash disk and must yield the old or the new registry, for all 16 ordered pairs of a 4-registry family. Path tree exhausted. The pinned tree violates the property at one call site (truncate in place): recorded as three known findings keyed by crash position and outcome; any other post-crash outcome is still a violation.")
 CLAIMED["C16"] = ("4/C16", "The real Gateway.__aenter__/__aexit__, Persistence.start/stop/save_on_schedule and the built-in transports' connect/disconnect run on a real asyncio event loop in virtual time over an in-memory file system whose every operation is a suspension point; the exit moment (0..12 loop turns), body-raises, connect-fault and disconnect-fault bits and the transport kind are inputs explored exhaustively; assertions: only the body/library exception propagates (never CancelledError), transport down, file == registry at exit, no task left, and >= 1 + floor(D/900) saves after D virtual seconds.")
 CLAIMED["C17"] = ("4/C17", "The real StreamTransport/TCPTransport/SerialTransport run over a real asyncio.StreamReader on a real event loop with a feeder task: every byte stream over an 8-byte alphabet up to length 3(4), every cut into 2(3) chunks, with and without EOF, is compared with the reference (lines of the stream in order, decoded; errors as TransportReadError); writes with fault bits on write/drain/close; connect fault; use before connect. The grid is enumerated by the solver (realised dimension, stated as such).")
+CLAIMED["C18"] = ("4/C18", "The real topic<->line mapping, subscription list and read queue are executed with symbolic node/child/ack/type and symbolic payload strings (';' and '/' included) for class-list prefixes: z3 decides the published topic/QoS/payload, subscription coverage under MQTT wildcard semantics, and that the echo under the in-prefix decodes (through the real MessageSchema) to the same message; the real MQTTClient runs on a real event loop against a fake broker client for all histories of <= 3 events in {message, undecodable payload, broker error}, with publish/subscribe/connect faults and connect->disconnect at every moment. Path trees exhausted; bounded model checking.")
+CLAIMED["C19"] = ("4/C19", "Two real gateways under an older and a newer protocol version are built into the same symbolic pre-state and fed the same symbolic event (received line of any command with the type ranging over the older version's table, or a send call); outcome, error attributes, writes, registry and both buffers must be equal, with exactly the stated exemptions. Implementation against implementation, one inductive step from equal states; adjacent version pairs in the quick tier, all 10 ordered pairs in the thorough tier. Path trees exhausted; bounded model checking.")
 PENDING = {
 }
 
